@@ -701,7 +701,13 @@ func genSet(r *hx.Rng, t *gtable) string {
 }
 
 func genSchema2(r *hx.Rng, i int, maxCols int) *gtable {
+	// (names of which one is the beginning of another: a catalog lookup that matches by prefix, or without
+	// regard to length, confuses them)
+	pool := []string{"t1", "t10", "t2", "t1a", "t3", "t30", "t4", "t2b", "t5", "t50", "t6", "t7"}
 	t := &gtable{name: fmt.Sprintf("t%d", i)}
+	if i >= 1 && i <= len(pool) {
+		t.name = pool[i-1]
+	}
 	types := []string{"int", "varchar", "boolean", "bigint"}
 	for k, n := 0, r.Range(1, maxCols); k < n; k++ {
 		t.cols = append(t.cols, gcol{fmt.Sprintf("c%d", k), types[r.Intn(4)]})
@@ -1108,6 +1114,59 @@ func runBulk(cfg *config, id int, r *hx.Rng, rows int, crash bool) {
 	cfg.st.Add("statements", total/90)
 }
 
+// runLimitsLite: rows whose encoded size sweeps across the 400-byte limit (the longest accepted one is
+// exactly at it), stored, flushed, grown by UPDATE, read back - without reloads or crashes, so that the
+// same operations can be replayed at small cache capacities, where these pages are evicted and re-read.
+func runLimitsLite(cfg *config, id int, r *hx.Rng) {
+	cfg.tr.Case(id)
+	d := &rdb{cfg: cfg, name: fmt.Sprintf("ll%d", id)}
+	defer d.close()
+	d.createdb()
+	a := &gtable{name: "t1", cols: []gcol{{"c0", "int"}, {"c1", "varchar"}}}
+	b := &gtable{name: "t2", cols: []gcol{{"c0", "varchar"}}}
+	d.stmt(createText(a))
+	d.stmt(createText(b))
+	str := func(n int) string {
+		bs := make([]byte, n)
+		for i := range bs {
+			bs[i] = byte('a' + r.Intn(26))
+		}
+		return string(bs)
+	}
+	// (a third table of twenty-odd leaves: every scan of it pushes the pages of the other two out of a small cache)
+	c := &gtable{name: "t3", cols: []gcol{{"c0", "int"}}}
+	d.stmt(createText(c))
+	for at := 0; at < 180; at += 30 {
+		var rs [][]interface{}
+		for k := 0; k < 30; k++ {
+			rs = append(rs, []interface{}{int64(at + k)})
+		}
+		d.stmt(insertText(c, rs, false))
+		d.flush()
+	}
+	base := 376 + r.Intn(6)
+	for n := base; n <= base+22; n++ {
+		d.insertv("t1", nil, [][]interface{}{{int64(n), str(n)}})
+		d.insertv("t2", nil, [][]interface{}{{str(n + 6)}})
+		if n%5 == 0 {
+			d.flush()
+		}
+	}
+	d.flush()
+	d.selectEvery()
+	for k := 0; k < 8; k++ {
+		d.stmt(fmt.Sprintf("UPDATE t1 SET c1 = '%s' WHERE c0 = %d", str(384+r.Intn(10)), base+r.Intn(12)))
+		d.flush()
+	}
+	d.selectEvery()
+	d.insertv("t1", nil, [][]interface{}{{int64(7), str(3)}})
+	d.flush()
+	d.selectEvery()
+	d.dump()
+	cfg.st.Seen("limits-lite", true)
+	cfg.st.Add("statements", 60)
+}
+
 func runPointOps(cfg *config, id int, r *hx.Rng) {
 	cfg.tr.Case(id)
 	d := &rdb{cfg: cfg, name: fmt.Sprintf("pt%d", id)}
@@ -1340,6 +1399,10 @@ func runDB(cfg *config) {
 			id++
 			runFailures(cfg, id, r.Fork())
 		}
+		for i := 0; i < 4*cfg.scale; i++ {
+			id++
+			runWrongName(cfg, id, r.Fork())
+		}
 		id++
 		runCacheFull(cfg, id, r.Fork())
 	case "c03":
@@ -1356,6 +1419,8 @@ func runDB(cfg *config) {
 			id++
 			runCacheSizes(cfg, id, r.Fork(), cfg.tier == "thorough" && i%4 == 0, i%2 == 1)
 		}
+		id++
+		runCacheSizesOf(cfg, id, r.Fork(), false, false, true)
 	case "c04":
 		n := 3 * cfg.scale
 		for i := 0; i < n; i++ {
@@ -1470,6 +1535,56 @@ func replayDB(cfg *config, id int, lines []string) {
 }
 
 // runFailures: every kind of failing statement, with the invalid row at every position k.
+// runWrongName: statements that name a table in another spelling (case, a name that is the beginning
+// or the continuation of an existing one) are refused and change nothing - in particular at the moment
+// the table's root is about to split (8 rows in its only leaf), where a half-done insert would have moved
+// pages already.
+func runWrongName(cfg *config, id int, r *hx.Rng) {
+	cfg.tr.Case(id)
+	d := &rdb{cfg: cfg, name: fmt.Sprintf("wn%d", id)}
+	defer d.close()
+	d.createdb()
+	t := &gtable{name: "people", cols: []gcol{{"id", "int"}, {"name", "varchar"}}}
+	d.stmt(createText(t))
+	u := &gtable{name: "peoples", cols: []gcol{{"id", "int"}}}
+	if r.Bool() {
+		d.stmt(createText(u))
+	}
+	n := []int{8, 8, 7, 9, 17}[r.Intn(5)]
+	for i := 0; i < n; i++ {
+		d.stmt(fmt.Sprintf("INSERT INTO people VALUES (%d, 'p%d')", i, i))
+	}
+	if r.Bool() {
+		d.flush()
+	}
+	for _, name := range []string{"People", "PEOPLE", "peopl", "people_", "peoplE"} {
+		switch r.Intn(4) {
+		case 0:
+			d.stmt(fmt.Sprintf("UPDATE %s SET name = 'changed' WHERE id = 1", name))
+		case 1:
+			d.stmt(fmt.Sprintf("DELETE FROM %s WHERE id = 2", name))
+		default:
+			d.stmt(fmt.Sprintf("INSERT INTO %s VALUES (%d, 'x')", name, 100+r.Intn(50)))
+		}
+		d.selectEvery()
+	}
+	switch r.Intn(3) {
+	case 0:
+		d.reopen()
+	case 1:
+		d.crash()
+		if res := d.recoverDB(); res != "ok" {
+			return
+		}
+	}
+	d.stmt("INSERT INTO people VALUES (200, 'after')")
+	d.selectEvery()
+	d.dump()
+	d.roots()
+	cfg.st.Seen("wrong-name", true)
+	cfg.st.Add("statements", n+7)
+}
+
 func runFailures(cfg *config, id int, r *hx.Rng) {
 	cfg.tr.Case(id)
 	d := &rdb{cfg: cfg, name: fmt.Sprintf("f%d", id)}
@@ -1921,6 +2036,10 @@ func runFlushCrashes(cfg *config, id int, r *hx.Rng) {
 // runCacheSizes (C16): one workload at the default cache capacity (written to the trace and compared
 // with the model) and again at small capacities; every operation's output must be identical.
 func runCacheSizes(cfg *config, id int, r *hx.Rng, big bool, medium bool) {
+	runCacheSizesOf(cfg, id, r, big, medium, false)
+}
+
+func runCacheSizesOf(cfg *config, id int, r *hx.Rng, big bool, medium bool, limits bool) {
 	// 1. the reference run: default capacity, flush after every statement
 	mark := cfg.tr.Mark()
 	caps := []int{6, 8, 16, 64}
@@ -1935,7 +2054,12 @@ func runCacheSizes(cfg *config, id int, r *hx.Rng, big bool, medium bool) {
 	if big {
 		o = histOpts{stmts: 700, maxTables: 2, maxCols: 3, maxRows: 3, pFlush: 100, dumpEvery: 350, selectEvery: 70}
 	}
-	runHistory(cfg, id, r, o)
+	if limits {
+		runLimitsLite(cfg, id, r)
+		caps = []int{12, 16, 24}
+	} else {
+		runHistory(cfg, id, r, o)
+	}
 	ref := cfg.tr.Since(mark)
 	var ops []string
 	for _, l := range ref {
